@@ -6,6 +6,9 @@ use amq_protocol::protocol::basic::GetOk as AmqpGetOk;
 use amq_protocol::protocol::basic::Return as AmqpReturn;
 use std::cmp::Ordering;
 
+// Upper bound for the buffer reserved when a content header arrives.
+const MAX_BODY_PREALLOC: u64 = 1 << 20;
+
 pub(super) struct ContentCollector {
     channel_id: u16,
     kind: Option<Kind>,
@@ -221,7 +224,10 @@ impl<T: ContentType> State<T> {
                         header.properties,
                     )))
                 } else {
-                    let buf = Vec::with_capacity(header.body_size as usize);
+                    // the announced size comes from the peer: never pre-allocate more
+                    // than a bounded amount for it, the buffer grows as bytes arrive
+                    let prealloc = std::cmp::min(header.body_size, MAX_BODY_PREALLOC);
+                    let buf = Vec::with_capacity(prealloc as usize);
                     Ok(Content::NeedMore(State::Body(start, header, buf)))
                 }
             }
